@@ -121,6 +121,14 @@ func (r *Run) Report(v Violation) {
 		if !r.known[v.Signature] {
 			r.known[v.Signature] = true
 			r.KnownCount++
+			// the artefact that reproduces it (scratch, like every replay file; the known-findings file itself is
+			// never touched at run time)
+			if b, err := json.MarshalIndent(v, "", " "); err == nil {
+				h := sha256.Sum256([]byte(v.Signature))
+				dir := filepath.Join(Dir(), "replays", r.ID)
+				_ = os.MkdirAll(dir, 0o755)
+				_ = os.WriteFile(filepath.Join(dir, "known-"+hex.EncodeToString(h[:6])+".json"), b, 0o644)
+			}
 			fmt.Printf("KNOWN-FINDING: property=%s %s [%s]\n", r.ID, k.What, v.Signature)
 		}
 		return
